@@ -5,6 +5,7 @@ import (
 	"fmt"
 	"io"
 	"math/big"
+	"os"
 	"os/exec"
 	"strconv"
 	"strings"
@@ -62,6 +63,12 @@ func AllStats() map[string]Stats {
 	}
 	return out
 }
+
+var (
+	SlowLogDir    = os.Getenv("GOSYM_SLOWLOG")
+	SlowThreshold = 2 * time.Second
+	slowCtr       int64
+)
 
 type Solver struct {
 	Backend   string // "z3", "z3-new", "cvc5"
@@ -183,7 +190,16 @@ func (s *Solver) Check(asserts []*Term, want []*Term) (Result, Model, error) {
 	}
 	t0 := time.Now()
 	atomic.AddInt64(&s.st.Queries, 1)
-	defer func() { atomic.AddInt64(&s.st.Nanos, int64(time.Since(t0))) }()
+	defer func() {
+		d := time.Since(t0)
+		atomic.AddInt64(&s.st.Nanos, int64(d))
+		if SlowLogDir != "" && d > SlowThreshold {
+			n := atomic.AddInt64(&slowCtr, 1)
+			if n <= 40 {
+				os.WriteFile(fmt.Sprintf("%s/slow_%03d_%dms.smt2", SlowLogDir, n, d.Milliseconds()), []byte(q), 0644)
+			}
+		}
+	}()
 
 	lines, err := s.roundTrip(q, marker1)
 	if err != nil {
